@@ -144,6 +144,11 @@ func sendVia(ctx context.Context, snd lime.Sender, e *Env) error {
 }
 
 func runSenders(w *World, dir string, specs []SenderSpec, snd lime.Sender) ([][]sentRec, []*Flag) {
+	return runSendersCtx(w, dir, specs, snd, 20*time.Minute)
+}
+
+// runSendersCtx is runSenders with a per-send context timeout.
+func runSendersCtx(w *World, dir string, specs []SenderSpec, snd lime.Sender, sendCtx time.Duration) ([][]sentRec, []*Flag) {
 	recs := make([][]sentRec, len(specs))
 	flags := make([]*Flag, len(specs))
 	for si, sp := range specs {
@@ -153,7 +158,7 @@ func runSenders(w *World, dir string, specs []SenderSpec, snd lime.Sender) ([][]
 			defer flags[si].Set()
 			for j, es := range sp.Envs {
 				e := BuildEnvelope(es, fmt.Sprintf("%s.%d.%d", dir, si, j))
-				ctx, cancel := context.WithTimeout(context.Background(), 20*time.Minute)
+				ctx, cancel := context.WithTimeout(context.Background(), sendCtx)
 				err := sendVia(ctx, snd, e)
 				cancel()
 				recs[si] = append(recs[si], sentRec{e, err})
@@ -324,6 +329,30 @@ func runC04(w *World, pi interface{}) {
 	}
 	if p.CliMux {
 		mux := &lime.EnvelopeMux{}
+		if p.Conf.Overlap {
+			// a narrow handler ahead of each catch-all: ids ending in an even digit match both
+			even := func(id string) bool { return len(id) > 0 && (id[len(id)-1]-'0')%2 == 0 }
+			mux.MessageHandlerFunc(func(m *lime.Message) bool { return even(m.ID) }, func(ctx context.Context, m *lime.Message, s lime.Sender) error {
+				cliSink.add(KMessage, m)
+				cliDelay()
+				return nil
+			})
+			mux.NotificationHandlerFunc(func(n *lime.Notification) bool { return even(n.ID) }, func(ctx context.Context, n *lime.Notification) error {
+				cliSink.add(KNotification, n)
+				cliDelay()
+				return nil
+			})
+			mux.RequestCommandHandlerFunc(func(c *lime.RequestCommand) bool { return even(c.ID) }, func(ctx context.Context, c *lime.RequestCommand, s lime.Sender) error {
+				cliSink.add(KRequest, c)
+				cliDelay()
+				return nil
+			})
+			mux.ResponseCommandHandlerFunc(func(c *lime.ResponseCommand) bool { return even(c.ID) }, func(ctx context.Context, c *lime.ResponseCommand, s lime.Sender) error {
+				cliSink.add(KResponse, c)
+				cliDelay()
+				return nil
+			})
+		}
 		mux.MessageHandlerFunc(nil, func(ctx context.Context, m *lime.Message, s lime.Sender) error {
 			cliSink.add(KMessage, m)
 			cliDelay()
@@ -478,7 +507,7 @@ func init() {
 		Run:    runC04,
 		MaxSim: 6 * time.Hour,
 		Rule: "plans = (one listener kind of tcp/tcp+tls/ws/wss/in-process, server and client buffer sizes incl. 0, in-process queue size, encryption selector, 0-3 sender tasks per direction each with 1-40 envelopes of all four kinds from the rich generator, " +
-			"handler/consumer delays on both sides, client consuming through an EnvelopeMux or four stream readers, benign link faults: fragmentation, latency, stalls (in a fifth of the runs longer than the 5 s I/O poll, behind a 16-512 byte send buffer), bounded send buffer; handler delays up to 6 s; in a third of the runs one side first gives up on a command of its own and the late response to it travels with the other traffic); " +
+			"handler/consumer delays on both sides, client consuming through an EnvelopeMux or four stream readers, optionally two handlers per kind with overlapping predicates on both sides, benign link faults: fragmentation, latency, stalls (in a fifth of the runs longer than the 5 s I/O poll, behind a 16-512 byte send buffer), bounded send buffer; handler delays up to 6 s; in a third of the runs one side first gives up on a command of its own and the late response to it travels with the other traffic); " +
 			"oracle over the quiescent history: delivered = sent-ok as multisets, exactly once, content equal, per (sender task, kind) order; the session nobody ended is still established at the end; non-trivial = session established and still established at the end; distinct = distinct (plan JSON, event-log hash)",
 	})
 }
